@@ -68,6 +68,11 @@ func (s *Service) SyncCommitteeContribution(ctx context.Context,
 
 				return
 			}
+			if contributionResponse == nil || contributionResponse.Data == nil {
+				// A response without data is not a response we can use.
+				log.Warn().Dur("elapsed", time.Since(started)).Msg("Obtained empty sync committee contribution response; ignoring")
+				return
+			}
 			contribution := contributionResponse.Data
 			log.Trace().Str("provider", name).Dur("elapsed", time.Since(started)).Msg("Obtained sync committee contribution")
 
